@@ -2,7 +2,7 @@
    upper layer, and the operations. *)
 From Coq Require Import List String Arith NArith Bool Lia Sorted.
 From FB Require Import Model.Overlay Proofs.OverlayInv Proofs.OverlayScan Proofs.OverlayRestart
-  Proofs.OverlayReadOnly Proofs.OverlayCoh Proofs.OverlayCohView.
+  Proofs.OverlayReadOnly Proofs.OverlayCoh Proofs.OverlayCohView Proofs.OverlayCopyUp.
 Import ListNotations.
 
 Definition is_prefix (a b : path) : Prop := exists r, b = a ++ r.
@@ -267,26 +267,558 @@ Proof.
   - intros Hl. destruct (ok_ld _ _ _ _ N Hl) as (A & B & C). split; [exact A|]. split; [exact B|].
     intros k. rewrite (kids_ext Sh Sh' p _ k Hp (fun i => H2 i k)). apply C.
 Qed.
+Lemma lstk_app S a : forall st p0 b, lstk S st p0 (a ++ b) = lstk S (lstk S st p0 a) (p0 ++ a) b.
+Proof.
+  induction a as [|x a IH]; intros st p0 b; cbn [app lstk]; [rewrite app_nil_r; reflexivity|].
+  rewrite IH. rewrite <- app_assoc. reflexivity.
+Qed.
 (* below a path q whose candidate lists for the children did not change *)
-Lemma CohT_below Sh Sh' nl q : 
+Lemma CohT_below Sh Sh' nl q :
   (forall i r, r <> [] -> Sh' i (q ++ r) = Sh i (q ++ r)) ->
   (forall k, kids Sh' q (lstack Sh' nl q) k = kids Sh q (lstack Sh nl q) k) ->
   forall k c, CohT Sh nl (q ++ [k]) c -> CohT Sh' nl (q ++ [k]) c.
 Proof.
   intros Hag Hk k c HC r m Hm. apply (NodeOK_ext2 Sh Sh' nl); [| | |apply HC; exact Hm].
-  - rewrite <- app_assoc. cbn [app]. unfold lstack.
-    assert (G : forall r st st' p0, st' = st -> (forall i p', is_prefix p0 p' -> is_prefix p' (p0 ++ r) -> Sh' i p' = Sh i p') ->
-              lstk Sh' st' p0 r = lstk Sh st p0 r).
-    { intros r0 st st' p0 -> H. apply lstk_ext. exact H. }
-    change (k :: r) with ([k] ++ r). rewrite app_assoc.
-    rewrite <- !(app_nil_l (q ++ [k])) at 1.
-    (* split the walk at q ++ [k] *)
-    assert (Hsplit : forall S a b st, lstk S st [] (a ++ b) = lstk S (lstk S st [] a) a b).
-    { intros S a. induction a as [|x a IHa] using rev_ind; intros b st; [reflexivity|].
-      rewrite <- app_assoc. cbn [app]. rewrite IHa. cbn [lstk]. rewrite lstk_snoc. cbn [app]. reflexivity. }
-    cbn [app]. rewrite !Hsplit. apply G.
-    + fold (lstack Sh' nl (q ++ [k])). fold (lstack Sh nl (q ++ [k])). rewrite !lstack_snoc. apply Hk.
-    + intros i p' [x ->] _. rewrite <- app_assoc. apply Hag. destruct x; discriminate.
-  - intros i. rewrite <- app_assoc. apply Hag. destruct r; discriminate.
-  - intros i k'. rewrite <- !app_assoc. apply Hag. destruct r; discriminate.
+  - unfold lstack. rewrite (lstk_app Sh' (q ++ [k])), (lstk_app Sh (q ++ [k])). cbn [app].
+    fold (lstack Sh' nl (q ++ [k])). fold (lstack Sh nl (q ++ [k])). rewrite !lstack_snoc, Hk.
+    apply lstk_ext. intros i p' [x Hx] _. subst p'. rewrite <- app_assoc. apply Hag. destruct x; discriminate.
+  - intros i. rewrite <- app_assoc. apply Hag. discriminate.
+  - intros i k'. rewrite <- !app_assoc. apply Hag. discriminate.
+Qed.
+
+(* ------------------------------------------------------------------ shapes of the upper tree after changing one child of one directory *)
+Fixpoint strip (a b : path) : option path :=
+  match a, b with
+  | [], _ => Some b
+  | x :: a', y :: b' => if String.eqb x y then strip a' b' else None
+  | _ :: _, [] => None
+  end.
+Lemma strip_some a : forall b r, strip a b = Some r -> b = a ++ r.
+Proof.
+  induction a as [|x a IH]; intros b r H; cbn [strip] in H; [inversion H; reflexivity|].
+  destruct b as [|y b]; [discriminate|]. destruct (String.eqb x y) eqn:E; [|discriminate].
+  apply String.eqb_eq in E; subst y. cbn. f_equal. apply IH. exact H.
+Qed.
+Lemma strip_app a r : strip a (a ++ r) = Some r.
+Proof. induction a as [|x a IH]; cbn [strip app]; [reflexivity|]. rewrite String.eqb_refl. exact IH. Qed.
+Lemma strip_none a b : strip a b = None -> ~ is_prefix a b.
+Proof. intros H [r ->]. rewrite strip_app in H. discriminate. Qed.
+
+Lemma tget_app_gen pp : forall U d r, tget U pp = Some d -> tget U (pp ++ r) = tget d r.
+Proof.
+  induction pp as [|c pp IH]; intros U d r H; cbn [tget app] in *; [inversion H; reflexivity|].
+  destruct U; try discriminate. destruct (afind c ch) as [y|]; [|discriminate]. apply IH. exact H.
+Qed.
+Lemma sh_tupd pp g : (forall d, sh (g d) = sh d) -> forall U d, tget U pp = Some d -> forall p,
+  option_map sh (tget (tupd pp g U) p) =
+  match strip pp p with Some r => option_map sh (tget (g d) r) | None => option_map sh (tget U p) end.
+Proof.
+  intros Hg. induction pp as [|c pp IH]; intros U d H p; cbn [tget tupd strip] in *.
+  - inversion H; subst. reflexivity.
+  - destruct U as [m x ch| | |]; try discriminate. destruct (afind c ch) as [y|] eqn:Ec; [|discriminate].
+    destruct p as [|k p]; [reflexivity|]. cbn [tget].
+    destruct (String.eqb c k) eqn:E.
+    + apply String.eqb_eq in E; subst k. rewrite afind_amap, Ec. cbn [option_map]. apply IH. exact H.
+    + rewrite (afind_amap_other _ _ _ _ E). reflexivity.
+Qed.
+
+Definition chmap (G : list (name * tree) -> list (name * tree)) (d : tree) : tree :=
+  match d with Dir m x ch => Dir m x (G ch) | _ => d end.
+Lemma sh_chmap G d : sh (chmap G d) = sh d.
+Proof. destruct d; reflexivity. Qed.
+
+Lemma upper_update_shape s s' U (pp : path) (nm : name) G cn m x ch :
+  upper s = Some U -> upper s' = Some (tupd pp (chmap G) U) -> lowers s' = lowers s ->
+  tget U pp = Some (Dir m x ch) ->
+  (forall k, k <> nm -> afind k (G ch) = afind k ch) -> afind nm (G ch) = cn ->
+  (forall i p', ~ is_prefix (pp ++ [nm]) p' -> shp s' i p' = shp s i p') /\
+  (forall r, shp s' 0%nat (pp ++ nm :: r) = option_map sh (match cn with Some c => tget c r | None => None end)) /\
+  (forall j p', shp s' (S j) p' = shp s (S j) p').
+Proof.
+  intros Hu Hu' Hl Hd HG Hnm.
+  assert (Hlow : forall j p', shp s' (S j) p' = shp s (S j) p').
+  { intros j p'. unfold shp, ent. cbn [get_layer]. rewrite Hl. reflexivity. }
+  assert (H0 : forall p, shp s' 0%nat p = option_map sh (tget (tupd pp (chmap G) U) p)).
+  { intros p. unfold shp, ent. cbn [get_layer]. rewrite Hu'. reflexivity. }
+  assert (H0s : forall p, shp s 0%nat p = option_map sh (tget U p)).
+  { intros p. unfold shp, ent. cbn [get_layer]. rewrite Hu. reflexivity. }
+  split.
+  - intros i p' Hn. destruct i as [|j].
+    + rewrite H0, H0s, (sh_tupd pp (chmap G) (sh_chmap G) U _ Hd).
+      destruct (strip pp p') as [r|] eqn:Es; [|reflexivity]. apply strip_some in Es. subst p'.
+      rewrite (tget_app_gen pp U _ r Hd). destruct r as [|k r]; [cbn; reflexivity|].
+      cbn [chmap tget]. destruct (String.eqb k nm) eqn:E.
+      * apply String.eqb_eq in E; subst k. exfalso. apply Hn. exists r. rewrite <- app_assoc. reflexivity.
+      * apply String.eqb_neq in E. rewrite (HG k E). reflexivity.
+    + apply Hlow.
+  - split; [|exact Hlow]. intros r. rewrite H0, (sh_tupd pp (chmap G) (sh_chmap G) U _ Hd), strip_app. cbn [chmap tget]. rewrite Hnm.
+    destruct cn; reflexivity.
+Qed.
+
+(* ------------------------------------------------------------------ candidates of a child whose upper entry is (re)placed *)
+Section UpperChild.
+Variables Sh Sh' : nat -> path -> option shape.
+Variable nl : nat.
+Variables (pp : path) (nm : name).
+Let q := pp ++ [nm].
+Hypothesis Hag : forall i p', ~ is_prefix q p' -> Sh' i p' = Sh i p'.
+Hypothesis Hlow : forall j p', Sh' (S j) p' = Sh (S j) p'.
+
+Lemma ag_prefix i p' : is_prefix p' pp -> Sh' i p' = Sh i p'.
+Proof using All.
+  intros Hp. apply Hag. intros Hq. apply is_prefix_len in Hp. apply is_prefix_len in Hq.
+  unfold q in Hq. rewrite app_length in Hq. cbn in Hq. lia.
+Qed.
+Lemma lstack_pp : lstack Sh' nl pp = lstack Sh nl pp.
+Proof using All. apply lstack_ext. intros i p' Hp. apply ag_prefix. exact Hp. Qed.
+
+Lemma dcut_on p st : (forall i, In i st -> Sh' i p = Sh i p) -> dcut Sh' p st = dcut Sh p st.
+Proof using All.
+  induction st as [|i r IH]; intros H; cbn [dcut]; [reflexivity|].
+  rewrite (H i (or_introl eq_refl)), IH; [reflexivity|]. intros j Hj. apply H. right; exact Hj.
+Qed.
+Lemma nozero_agree p st : ~ In 0%nat st -> forall i, In i st -> Sh' i p = Sh i p.
+Proof using All. intros Hn i Hi. destruct i as [|j]; [contradiction|apply Hlow]. Qed.
+Lemma filter_on (f g : nat -> bool) st : (forall i, In i st -> f i = g i) -> filter f st = filter g st.
+Proof using All.
+  induction st as [|i r IH]; intros H; cbn [filter]; [reflexivity|].
+  rewrite (H i (or_introl eq_refl)), IH; [reflexivity|]. intros j Hj. apply H. right; exact Hj.
+Qed.
+
+(* the parent is backed by the upper layer *)
+Definition lowerc (rest : list nat) : list nat := filter (present Sh q) (tl (dcut Sh pp (0%nat :: rest))).
+Lemma rest_nozero rest o : lstack Sh nl pp = 0%nat :: rest -> Sh 0%nat pp = Some (SDir o) ->
+  ~ In 0%nat (tl (dcut Sh pp (0%nat :: rest))).
+Proof using All.
+  intros Hst Hpd. pose proof (incr_lstack Sh nl pp) as Hi. rewrite Hst in Hi.
+  destruct (incr_dcut Sh pp _ Hi) as [A _]. cbn [dcut] in *. rewrite Hpd in *. destruct o; cbn [tl]; [intros []|].
+  inversion A as [|? ? _ Hall]; subst. rewrite Forall_forall in Hall. intros H0. specialize (Hall _ H0). lia.
+Qed.
+Lemma lowerc_nozero rest o : lstack Sh nl pp = 0%nat :: rest -> Sh 0%nat pp = Some (SDir o) -> ~ In 0%nat (lowerc rest).
+Proof using All.
+  intros Hst Hpd. unfold lowerc. intros H. apply filter_In in H. destruct H as [H _]. exact (rest_nozero rest o Hst Hpd H).
+Qed.
+Lemma kids_old rest o : lstack Sh nl pp = 0%nat :: rest -> Sh 0%nat pp = Some (SDir o) ->
+  kids Sh pp (lstack Sh nl pp) nm = (if present Sh q 0%nat then [0%nat] else []) ++ lowerc rest.
+Proof using All.
+  intros Hst Hpd. unfold kids, lowerc. rewrite Hst. cbn [dcut]. rewrite Hpd. fold q.
+  destruct o; cbn [filter tl]; destruct (present Sh q 0%nat); reflexivity.
+Qed.
+Lemma kids_new rest o : lstack Sh nl pp = 0%nat :: rest -> Sh 0%nat pp = Some (SDir o) ->
+  kids Sh' pp (lstack Sh' nl pp) nm = (if present Sh' q 0%nat then [0%nat] else []) ++ lowerc rest.
+Proof using All.
+  intros Hst Hpd. unfold kids. rewrite lstack_pp, Hst.
+  rewrite (dcut_ext Sh Sh' pp _ (fun i => ag_prefix i pp (is_prefix_refl pp))).
+  unfold lowerc. cbn [dcut]. rewrite Hpd. fold q.
+  destruct o; cbn [filter tl].
+  - destruct (present Sh' q 0%nat); reflexivity.
+  - assert (E : filter (present Sh' q) (dcut Sh pp rest) = filter (present Sh q) (dcut Sh pp rest)).
+    { apply filter_on. intros i Hi. unfold present. rewrite (nozero_agree q (dcut Sh pp rest)); [reflexivity| |exact Hi].
+      pose proof (rest_nozero rest false Hst Hpd) as R. cbn [dcut tl] in R. rewrite Hpd in R. exact R. }
+    rewrite E. destruct (present Sh' q 0%nat); reflexivity.
+Qed.
+Lemma lstack_q_old rest o : lstack Sh nl pp = 0%nat :: rest -> Sh 0%nat pp = Some (SDir o) ->
+  lstack Sh nl q = (if present Sh q 0%nat then [0%nat] else []) ++ lowerc rest.
+Proof using All. intros Hst Hpd. unfold q. rewrite lstack_snoc. apply (kids_old rest o Hst Hpd). Qed.
+Lemma lstack_q_new rest o : lstack Sh nl pp = 0%nat :: rest -> Sh 0%nat pp = Some (SDir o) ->
+  lstack Sh' nl q = (if present Sh' q 0%nat then [0%nat] else []) ++ lowerc rest.
+Proof using All. intros Hst Hpd. unfold q. rewrite lstack_snoc. apply (kids_new rest o Hst Hpd). Qed.
+
+(* a node whose single backing inode is the new upper entry *)
+Lemma leaf_node_ok rest o ri : lstack Sh nl pp = 0%nat :: rest -> Sh 0%nat pp = Some (SDir o) ->
+  rgood Sh' q ri -> r_layer ri = 0%nat ->
+  (dcut Sh' q [0%nat] = dcut Sh' q (0%nat :: lowerc rest)) ->
+  NodeOK Sh' nl q (Node [ri] (r_wh ri) false []).
+Proof using All.
+  intros Hst Hpd Hg Hl Hc.
+  assert (Hp : present Sh' q 0%nat = true).
+  { destruct Hg as (_ & _ & Hs). rewrite Hl in Hs. unfold present. destruct (Sh' 0%nat q); [reflexivity|contradiction]. }
+  constructor; cbn [n_reals n_wh n_loaded n_ch first_wh map]; rewrite ?Hl, ?(lstack_q_new rest o Hst Hpd), ?Hp; cbn [app hd_error].
+  - constructor; [exact Hg|constructor].
+  - discriminate.
+  - reflexivity.
+  - exact Hc.
+  - exact I.
+  - reflexivity.
+  - reflexivity.
+  - constructor.
+  - discriminate.
+Qed.
+End UpperChild.
+
+(* the parent after any change of its child [nm] *)
+Lemma parent_upd_ok Sh Sh' nl nm q0 pn ch' :
+  (forall i p', ~ is_prefix (q0 ++ [nm]) p' -> Sh' i p' = Sh i p') ->
+  NodeOK Sh nl q0 pn -> n_loaded pn = true -> NoDup (map fst ch') ->
+  (forall k, k <> nm -> (afind k ch' = None <-> afind k (n_ch pn) = None)) ->
+  (afind nm ch' = None <-> kids Sh' q0 (lstack Sh' nl q0) nm = []) ->
+  NodeOK Sh' nl q0 (Node (n_reals pn) (n_wh pn) (n_loaded pn) ch').
+Proof.
+  intros Hag N Hl Hnd Hoth Hnm.
+  assert (Hpre : forall i p', is_prefix p' q0 -> Sh' i p' = Sh i p').
+  { intros i p' Hp. apply Hag. intros Hq. apply is_prefix_len in Hp. apply is_prefix_len in Hq.
+    rewrite app_length in Hq. cbn in Hq. lia. }
+  assert (Hp : forall i, Sh' i q0 = Sh i q0) by (intros i; apply Hpre; apply is_prefix_refl).
+  pose proof (lstack_ext Sh Sh' nl q0 Hpre) as HL.
+  constructor; cbn [n_reals n_wh n_loaded n_ch]; rewrite ?HL; try apply N.
+  - eapply Forall_impl; [|apply (ok_reals _ _ _ _ N)]. intros r (A & B & C). unfold rgood. rewrite Hp. auto.
+  - rewrite !(dcut_ext Sh Sh' q0 _ Hp). apply N.
+  - apply (opq_ok_ext Sh Sh'); [exact Hp|apply N].
+  - rewrite Hl. discriminate.
+  - exact Hnd.
+  - intros _. destruct (ok_ld _ _ _ _ N Hl) as (A & B & C). split; [exact A|]. split; [exact B|].
+    intros k. destruct (String.eqb k nm) eqn:E.
+    + apply String.eqb_eq in E; subst k. rewrite <- HL. exact Hnm.
+    + apply String.eqb_neq in E. rewrite (Hoth k E). rewrite (kids_ext Sh Sh' q0 _ k Hp).
+      * apply C.
+      * intros i. apply Hag. intros Hq. apply (proj1 (is_prefix_app_l _ _ _)) in Hq. apply (proj1 (is_prefix_cons _ _ _ _)) in Hq.
+        destruct Hq as [Hq _]. congruence.
+Qed.
+
+(* ------------------------------------------------------------------ layers stay well formed *)
+Lemma wf_tupd pp g : (forall d, wf d -> wf (g d)) -> forall U, wf U -> wf (tupd pp g U).
+Proof.
+  intros Hg. induction pp as [|c pp IH]; intros U HU; cbn [tupd]; [auto|].
+  destruct U; try exact HU. inversion HU as [? ? ? Hn Hall| | |]; subst.
+  constructor; [rewrite keys_amap; exact Hn|].
+  unfold amap. clear Hn HU. induction Hall as [|kv l H1 H2 IHl]; cbn [map]; constructor; auto.
+  match goal with |- context [if ?b then _ else _] => destruct b end; cbn [snd]; auto.
+Qed.
+Lemma dir_tupd pp g : (forall d, is_dirT d = true -> is_dirT (g d) = true) -> forall U, is_dirT U = true -> is_dirT (tupd pp g U) = true.
+Proof. intros Hg. destruct pp; intros U HU; cbn [tupd]; [auto|]. destruct U; try discriminate. reflexivity. Qed.
+Lemma wf_chmap_aset nm c d : wf d -> wf c -> wf (chmap (aset nm c) d).
+Proof.
+  intros Hd Hc. destruct d; cbn [chmap]; try exact Hd. inversion Hd as [? ? ? Hn Hall| | |]; subst.
+  constructor; [apply keys_aset; exact Hn|]. apply Forall_aset; assumption.
+Qed.
+Lemma keys_adel_nodup {A} nm (l : list (string * A)) : NoDup (map fst l) -> NoDup (map fst (adel nm l)).
+Proof.
+  intros Hn. induction l as [|[a x] l IH]; cbn [adel map fst] in *; [constructor|].
+  inversion Hn as [|? ? Hnot Hn']; subst. destruct (String.eqb nm a); [auto|]. cbn [map fst]. constructor; [|auto].
+  intros Hin. apply Hnot. clear -Hin. induction l as [|[b y] l IHl]; cbn [adel map fst] in *; [exact Hin|].
+  destruct (String.eqb nm b); [right; auto|]. cbn [map fst] in Hin. destruct Hin as [H|H]; [left; exact H|right; auto].
+Qed.
+Lemma wf_chmap_adel nm d : wf d -> wf (chmap (adel nm) d).
+Proof.
+  intros Hd. destruct d; cbn [chmap]; try exact Hd. inversion Hd as [? ? ? Hn Hall| | |]; subst.
+  constructor; [apply keys_adel_nodup; exact Hn|]. apply Forall_adel. exact Hall.
+Qed.
+Lemma layer_ok_tupd pp g U : (forall d, wf d -> wf (g d)) -> (forall d, is_dirT d = true -> is_dirT (g d) = true) ->
+  layer_ok U -> layer_ok (tupd pp g U).
+Proof. intros H1 H2 [A B]. split; [apply wf_tupd; assumption|apply dir_tupd; assumption]. Qed.
+Lemma wf_layers_set_upper s s' U' : wf_layers s -> upper s' = Some U' -> lowers s' = lowers s -> layer_ok U' -> wf_layers s'.
+Proof.
+  intros Hw Hu Hl HU i t Hg. destruct i as [|j]; cbn [get_layer] in Hg.
+  - rewrite Hu in Hg. inversion Hg; subst. exact HU.
+  - rewrite Hl in Hg. apply (Hw (S j) t). exact Hg.
+Qed.
+
+(* ------------------------------------------------------------------ block: the upper entry pp/nm becomes the leaf c
+   (file, symlink, whiteout, empty directory) and the cache child becomes a node backed by it alone *)
+Lemma sh_dir_of_tget s U pp m x ch : upper s = Some U -> tget U pp = Some (Dir m x ch) ->
+  shp s 0%nat pp = Some (SDir (xs_opaque x)).
+Proof. intros Hu Ht. unfold shp, ent. cbn [get_layer]. rewrite Hu, Ht. reflexivity. Qed.
+
+Lemma leaf_block s s' U (pp : path) (nm : name) G c pn rest m x ch ri :
+  Coherent s ->
+  upper s = Some U -> tget U pp = Some (Dir m x ch) ->
+  (forall k, k <> nm -> afind k (G ch) = afind k ch) -> afind nm (G ch) = Some c ->
+  (forall k r, tget c (k :: r) = None) ->
+  upper s' = Some (tupd pp (chmap G) U) -> lowers s' = lowers s -> wf_layers s' ->
+  nget pp (root s) = Some pn -> n_loaded pn = true ->
+  lstack (shp s) (List.length (lowers s)) pp = 0%nat :: rest ->
+  (r_layer ri = 0%nat /\ r_upper ri = true /\ r_path ri = pp ++ [nm] /\ r_wh ri = is_whT c /\ r_dir ri = is_dirT c /\
+   (r_opq ri = true -> is_opaqueT c = true)) ->
+  (is_dirT c = false \/ is_opaqueT c = true \/ lowerc (shp s) pp nm rest = []) ->
+  (exists g, root s' = nupd pp g (root s) /\ n_reals (g pn) = n_reals pn /\ n_wh (g pn) = n_wh pn /\
+      n_loaded (g pn) = n_loaded pn /\ NoDup (map fst (n_ch (g pn))) /\
+      afind nm (n_ch (g pn)) = Some (Node [ri] (r_wh ri) false []) /\
+      (forall k, k <> nm -> afind k (n_ch (g pn)) = afind k (n_ch pn))) ->
+  Coherent s'.
+Proof.
+  intros (Hu0 & Hw & HC) Hu Hd HG Hnm Hleaf Hu' Hl Hw' Hget Hld Hst (R1 & R2 & R3 & R4 & R5 & R6) Hcut (g & Hroot & G1 & G2 & G3 & G4 & G5 & G6).
+  destruct (upper_update_shape s s' U pp nm G (Some c) m x ch Hu Hu' Hl Hd HG Hnm) as (Hag & Hat & Hlow).
+  pose proof (sh_dir_of_tget s U pp m x ch Hu Hd) as Hpd.
+  set (Sh := shp s) in *. set (Sh' := shp s') in *. set (nl := List.length (lowers s)) in *.
+  assert (Hq : Sh' 0%nat (pp ++ [nm]) = Some (sh c)) by (rewrite (Hat []); reflexivity).
+  assert (Hpres : present Sh' (pp ++ [nm]) 0%nat = true) by (unfold present; rewrite Hq; reflexivity).
+  split; [eauto|]. split; [exact Hw'|]. rewrite Hl, Hroot. fold nl.
+  apply (update_child_coh Sh Sh' nl nm g pp [] (root s) pn); cbn [app]; [exact Hag|exact HC|exact Hget| |].
+  - (* the parent *)
+    destruct (g pn) as [rs' w' l' ch'] eqn:Eg. cbn [n_reals n_wh n_loaded n_ch] in *. subst rs' w' l'.
+    apply (parent_upd_ok Sh Sh' nl nm pp pn ch').
+    + exact Hag.
+    + exact (HC pp pn Hget).
+    + exact Hld.
+    + exact G4.
+    + intros k Hk. rewrite (G6 k Hk). reflexivity.
+    + rewrite G5, (kids_new Sh Sh' nl pp nm Hag Hlow rest _ Hst Hpd). unfold path, name in *. rewrite Hpres. cbn [app]. split; discriminate.
+  - (* the children *)
+    intros k c0 Hk. destruct (String.eqb k nm) eqn:E.
+    + apply String.eqb_eq in E; subst k. left. split; [reflexivity|]. rewrite G5 in Hk. inversion Hk; subst c0.
+      apply CohT_intro; [|intros k' c' H'; discriminate].
+      apply (leaf_node_ok Sh Sh' nl pp nm Hag Hlow rest _ ri Hst Hpd); auto.
+      * unfold rgood. unfold path, name in *. rewrite R1, R2, R3, Hq. split; [reflexivity|]. split; [reflexivity|].
+        destruct c; cbn [sh is_whT is_dirT is_opaqueT] in *; repeat split; auto.
+        -- destruct (r_opq ri); [specialize (R6 eq_refl); discriminate|reflexivity].
+        -- destruct (r_opq ri); [specialize (R6 eq_refl); discriminate|reflexivity].
+        -- destruct (r_opq ri); [specialize (R6 eq_refl); discriminate|reflexivity].
+      * cbn [dcut]. unfold path, name in *. rewrite Hq. destruct c as [mc xc cc| | |]; cbn [sh]; try reflexivity.
+        destruct (xs_opaque xc) eqn:Eo; [reflexivity|].
+        destruct Hcut as [H|[H|H]]; [discriminate|cbn in H; congruence|]. rewrite H. reflexivity.
+    + right. apply String.eqb_neq in E. split; [exact E|]. rewrite <- (G6 k E). exact Hk.
+Qed.
+
+(* ------------------------------------------------------------------ block: a lower-only directory gets an (empty) upper directory *)
+Lemma tget_none_app t : forall p r, tget t p = None -> tget t (p ++ r) = None.
+Proof.
+  intros p; revert t. induction p as [|k p IH]; intros t r H; cbn [tget app] in *; [discriminate|].
+  destruct t; try reflexivity. destruct (afind k ch); [apply IH; exact H|reflexivity].
+Qed.
+Lemma nupd_app pp nm f : forall r,
+  nupd (pp ++ [nm]) f r = nupd pp (fun pn => Node (n_reals pn) (n_wh pn) (n_loaded pn) (amap nm f (n_ch pn))) r.
+Proof.
+  induction pp as [|c pp IH]; intros r; cbn [app nupd]; [reflexivity|].
+  f_equal. unfold amap. apply map_ext. intros kv. destruct (String.eqb c (fst kv)); [rewrite IH|]; reflexivity.
+Qed.
+Lemma rgood_on Sh Sh' p r : Sh' (r_layer r) p = Sh (r_layer r) p -> rgood Sh p r -> rgood Sh' p r.
+Proof. intros H (A & B & C). unfold rgood. rewrite H. auto. Qed.
+Lemma opq_ok_on Sh Sh' p rs : (forall r, In r rs -> Sh' (r_layer r) p = Sh (r_layer r) p) -> opq_ok Sh p rs -> opq_ok Sh' p rs.
+Proof.
+  induction rs as [|r rest IH]; intros H Ho; [exact I|]. destruct rest as [|r2 rest]; [exact I|].
+  destruct Ho as [A B]. split; [rewrite (H r (or_introl eq_refl)); exact A|].
+  apply IH; [|exact B]. intros r' Hr'. apply H. right; exact Hr'.
+Qed.
+
+Lemma dirup_block s s' U (pp : path) (nm : name) md pn n_old rest m x ch :
+  Coherent s ->
+  upper s = Some U -> tget U pp = Some (Dir m x ch) -> afind nm ch = None ->
+  upper s' = Some (tupd pp (chmap (aset nm (Dir md [] []))) U) -> lowers s' = lowers s ->
+  nget pp (root s) = Some pn -> n_loaded pn = true -> afind nm (n_ch pn) = Some n_old ->
+  lstack (shp s) (List.length (lowers s)) pp = 0%nat :: rest ->
+  root s' = nupd (pp ++ [nm]) (add_upper (mkReal 0 true (pp ++ [nm]) false false true) false) (root s) ->
+  Coherent s'.
+Proof.
+  intros (Hu0 & Hw & HC) Hu Hd Hnone Hu' Hl Hget Hld Hold Hst Hroot.
+  set (c := Dir md [] []). set (ri := mkReal 0 true (pp ++ [nm]) false false true) in *.
+  assert (HG : forall k, k <> nm -> afind k (aset nm c ch) = afind k ch).
+  { intros k Hk. rewrite afind_aset. apply String.eqb_neq in Hk. rewrite Hk. reflexivity. }
+  assert (Hnm : afind nm (aset nm c ch) = Some c) by (rewrite afind_aset, String.eqb_refl; reflexivity).
+  destruct (upper_update_shape s s' U pp nm (aset nm c) (Some c) m x ch Hu Hu' Hl Hd HG Hnm) as (Hag & Hat & Hlow).
+  pose proof (sh_dir_of_tget s U pp m x ch Hu Hd) as Hpd.
+  assert (Hw' : wf_layers s').
+  { apply (wf_layers_set_upper s s' _ Hw Hu' Hl). apply layer_ok_tupd.
+    - intros d Hdw. apply wf_chmap_aset; [exact Hdw|]. constructor; constructor.
+    - intros d Hdd. destruct d; try discriminate. reflexivity.
+    - apply (Hw 0%nat U). cbn. exact Hu. }
+  set (Sh := shp s) in *. set (Sh' := shp s') in *. set (nl := List.length (lowers s)) in *.
+  set (q := pp ++ [nm]) in *.
+  assert (Hq' : Sh' 0%nat q = Some (SDir false)) by (unfold q; rewrite (Hat []); reflexivity).
+  assert (Hq : Sh 0%nat q = None).
+  { unfold Sh, shp, ent, q. cbn [get_layer]. rewrite Hu, (tget_app U pp nm), Hd, Hnone. reflexivity. }
+  assert (Hbelow0 : forall r, r <> [] -> Sh' 0%nat (q ++ r) = Sh 0%nat (q ++ r)).
+  { intros r Hr. destruct r as [|k r]; [contradiction|]. unfold q. rewrite <- app_assoc. cbn [app]. rewrite (Hat (k :: r)). cbn.
+    unfold Sh, shp, ent. cbn [get_layer]. rewrite Hu.
+    change (pp ++ nm :: k :: r) with (pp ++ [nm] ++ k :: r). rewrite app_assoc.
+    rewrite (tget_none_app U (pp ++ [nm]) (k :: r)); [reflexivity|]. rewrite (tget_app U pp nm), Hd. exact Hnone. }
+  assert (Hpres' : present Sh' q 0%nat = true) by (unfold present; rewrite Hq'; reflexivity).
+  assert (Hpres : present Sh q 0%nat = false) by (unfold present; rewrite Hq; reflexivity).
+  pose proof (lstack_q_old Sh Sh' nl pp nm Hag Hlow rest _ Hst Hpd) as Lold. fold q in Lold. rewrite Hpres in Lold. cbn [app] in Lold.
+  pose proof (lstack_q_new Sh Sh' nl pp nm Hag Hlow rest _ Hst Hpd) as Lnew. fold q in Lnew. rewrite Hpres' in Lnew. cbn [app] in Lnew.
+  pose proof (lowerc_nozero Sh Sh' nl pp nm Hag Hlow rest _ Hst Hpd) as Lnz.
+  set (L := lowerc Sh pp nm rest) in *.
+  assert (HdL : dcut Sh' q L = dcut Sh q L) by (apply (dcut_on Sh Sh' nl pp nm Hag Hlow); apply (nozero_agree Sh Sh' nl pp nm Hag Hlow); exact Lnz).
+  assert (Hkids : forall k, kids Sh' q (lstack Sh' nl q) k = kids Sh q (lstack Sh nl q) k).
+  { intros k. unfold kids. rewrite Lnew, Lold. cbn [dcut]. rewrite Hq', HdL. cbn [filter].
+    assert (E0 : present Sh' (q ++ [k]) 0%nat = false).
+    { unfold present. rewrite (Hbelow0 [k]); [|discriminate]. unfold Sh, shp, ent. cbn [get_layer]. rewrite Hu.
+      unfold q. rewrite (tget_none_app U (pp ++ [nm]) [k]); [reflexivity|]. rewrite (tget_app U pp nm), Hd. exact Hnone. }
+    rewrite E0. apply (filter_on Sh Sh' nl pp nm Hag Hlow). intros i Hi. unfold present.
+    destruct i as [|j]; [|rewrite Hlow; reflexivity]. exfalso. apply Lnz.
+    destruct (incr_dcut Sh q L) as [_ B]; [|apply B; exact Hi].
+    rewrite <- Lold. apply incr_lstack. }
+  pose proof (HC pp pn Hget) as Npn.
+  assert (Nold : NodeOK Sh nl q n_old).
+  { apply (HC q n_old). unfold q. clear -Hget Hold. revert Hget. generalize (root s). induction pp as [|a pp IH]; intros r Hg; cbn [nget app] in *.
+    - inversion Hg; subst. rewrite Hold. reflexivity.
+    - destruct (afind a (n_ch r)); [apply IH; exact Hg|discriminate]. }
+  assert (Hnz : forall r, In r (n_reals n_old) -> Sh' (r_layer r) q = Sh (r_layer r) q).
+  { intros r Hr. pose proof (ok_reals _ _ _ _ Nold) as Hg. rewrite Forall_forall in Hg. destruct (Hg r Hr) as (_ & _ & Hs).
+    destruct (r_layer r) as [|j]; [rewrite Hq in Hs; contradiction|apply Hlow]. }
+  split; [eauto|]. split; [exact Hw'|]. rewrite Hl, Hroot. fold nl. unfold q. rewrite nupd_app.
+  apply (update_child_coh Sh Sh' nl nm _ pp [] (root s) pn); cbn [app]; [exact Hag|exact HC|exact Hget| |].
+  - apply (parent_upd_ok Sh Sh' nl nm pp pn).
+    + exact Hag.
+    + exact Npn.
+    + exact Hld.
+    + rewrite keys_amap. apply Npn.
+    + intros k Hk. apply String.eqb_neq in Hk. rewrite String.eqb_sym in Hk. rewrite (afind_amap_other _ _ _ _ Hk). reflexivity.
+    + rewrite afind_amap, Hold. cbn [option_map].
+      rewrite (kids_new Sh Sh' nl pp nm Hag Hlow rest _ Hst Hpd). fold q. rewrite Hpres'. cbn [app]. split; discriminate.
+  - cbn [n_ch]. intros k c0 Hk. destruct (String.eqb nm k) eqn:E.
+    + apply String.eqb_eq in E; subst k. left. split; [reflexivity|]. rewrite afind_amap, Hold in Hk. cbn [option_map] in Hk.
+      inversion Hk; subst c0. fold q. apply CohT_intro.
+      * (* the copied-up directory node *)
+        unfold add_upper. cbn [r_wh ri].
+        constructor; cbn [n_reals n_wh n_loaded n_ch first_wh first_dir map r_layer r_wh r_dir ri]; rewrite ?Lnew.
+        -- constructor.
+           ++ unfold rgood; cbn [r_path r_upper r_layer r_wh r_dir r_opq ri]. rewrite Hq'. repeat split; auto.
+           ++ eapply Forall_impl_in || idtac. apply Forall_forall. intros r Hr.
+              pose proof (ok_reals _ _ _ _ Nold) as Hg. rewrite Forall_forall in Hg.
+              apply (rgood_on Sh Sh'); [apply Hnz; exact Hr|apply Hg; exact Hr].
+        -- discriminate.
+        -- reflexivity.
+        -- cbn [dcut]. rewrite Hq'. f_equal. rewrite HdL.
+           rewrite (dcut_on Sh Sh' nl pp nm Hag Hlow q (map r_layer (n_reals n_old))).
+           ++ rewrite (ok_cut _ _ _ _ Nold), Lold. reflexivity.
+           ++ intros i Hi. apply in_map_iff in Hi. destruct Hi as (r & <- & Hr). apply Hnz. exact Hr.
+        -- pose proof (ok_opq _ _ _ _ Nold) as Ho. destruct (n_reals n_old) as [|r2 rs2] eqn:Er; [exact I|].
+           split; [intros H; unfold ri in H; cbn [r_layer] in H; rewrite Hq' in H; discriminate|]. apply (opq_ok_on Sh Sh'); [exact Hnz|exact Ho].
+        -- reflexivity.
+        -- apply Nold.
+        -- apply Nold.
+        -- intros Hl'. destruct (ok_ld _ _ _ _ Nold Hl') as (_ & _ & C). split; [reflexivity|]. split; [reflexivity|].
+           intros k. rewrite <- Lnew, Hkids. apply C.
+      * cbn [add_upper n_ch]. intros k c' Hk'.
+        apply (CohT_below Sh Sh' nl q).
+        -- intros i r Hr. destruct i as [|j]; [apply Hbelow0; exact Hr|apply Hlow].
+        -- exact Hkids.
+        -- apply (CohT_child Sh nl q n_old k c'); [|exact Hk'].
+           intros r m' Hm'. apply HC. unfold q. clear -Hget Hold Hm'. revert Hget. generalize (root s).
+           induction pp as [|a pp IH]; intros r0 Hg; cbn [nget app] in *.
+           ++ inversion Hg; subst. rewrite Hold. exact Hm'.
+           ++ destruct (afind a (n_ch r0)); [apply IH; exact Hg|discriminate].
+    + right. split; [intros ->; rewrite String.eqb_refl in E; discriminate|].
+      rewrite (afind_amap_other _ _ _ _ E) in Hk. exact Hk.
+Qed.
+
+(* ------------------------------------------------------------------ create_upper_dir keeps the state coherent *)
+Lemma split_last_spec p pp nm : split_last p = Some (pp, nm) -> p = pp ++ [nm].
+Proof.
+  revert pp nm. induction p as [|a p IH]; intros pp nm H; cbn [split_last] in H; [discriminate|].
+  destruct p as [|b p]; [inversion H; reflexivity|].
+  destruct (split_last (b :: p)) as [[q l]|]; [|discriminate]. inversion H; subst. cbn. f_equal. apply IH. reflexivity.
+Qed.
+Lemma nget_nupd_loaded f q : (forall m, n_ch (f m) = n_ch m) -> (forall m, n_loaded (f m) = n_loaded m) ->
+  forall r p, option_map n_loaded (nget p (nupd q f r)) = option_map n_loaded (nget p r).
+Proof.
+  intros Hf Hl. induction q as [|c q IH]; intros r p; cbn [nupd].
+  - destruct p as [|k p]; cbn [nget option_map]; [rewrite Hl; reflexivity|]. rewrite Hf. reflexivity.
+  - destruct p as [|k p]; cbn [nget n_ch option_map n_loaded]; [reflexivity|].
+    destruct (String.eqb c k) eqn:E.
+    + apply String.eqb_eq in E; subst k. rewrite afind_amap. destruct (afind c (n_ch r)); cbn [option_map]; [apply IH|reflexivity].
+    + rewrite (afind_amap_other _ _ _ _ E). reflexivity.
+Qed.
+(* same paths in the cache, same loaded flags *)
+Definition same_paths (s s' : state) : Prop :=
+  forall p, option_map n_loaded (nget p (root s')) = option_map n_loaded (nget p (root s)).
+Lemma same_paths_refl s : same_paths s s. Proof. intros p; reflexivity. Qed.
+Lemma same_paths_trans a b c : same_paths a b -> same_paths b c -> same_paths a c.
+Proof. intros H1 H2 p. rewrite (H2 p). apply H1. Qed.
+Lemma same_paths_some s s' p n : same_paths s s' -> nget p (root s) = Some n ->
+  exists n', nget p (root s') = Some n' /\ n_loaded n' = n_loaded n.
+Proof.
+  intros H Hn. specialize (H p). rewrite Hn in H. destruct (nget p (root s')) as [n'|]; cbn in H; [|discriminate].
+  inversion H. eauto.
+Qed.
+
+Lemma nget_child pp nm r pn c : nget pp r = Some pn -> nget (pp ++ [nm]) r = Some c -> afind nm (n_ch pn) = Some c.
+Proof.
+  revert r. induction pp as [|a pp IH]; intros r Hp Hc; cbn [nget app] in *.
+  - inversion Hp; subst. destruct (afind nm (n_ch pn)); [exact Hc|discriminate].
+  - destruct (afind a (n_ch r)); [eapply IH; eassumption|discriminate].
+Qed.
+Lemma first_upper_stack s p n r rs : NodeOK (shp s) (List.length (lowers s)) p n -> n_reals n = r :: rs -> r_upper r = true ->
+  r_layer r = 0%nat /\ r_path r = p /\ exists rest, lstack (shp s) (List.length (lowers s)) p = 0%nat :: rest.
+Proof.
+  intros N Er Hu. pose proof (ok_reals _ _ _ _ N) as Hg. rewrite Er in Hg. inversion Hg as [|? ? (Hp & Hup & _) _]; subst.
+  rewrite Hu in Hup. symmetry in Hup. apply Nat.eqb_eq in Hup. split; [exact Hup|]. split; [reflexivity|].
+  pose proof (ok_hd _ _ _ _ N) as Hh. rewrite Er in Hh. cbn [map hd_error] in Hh. rewrite Hup in Hh.
+  destruct (lstack (shp s) (List.length (lowers s)) (r_path r)) as [|i rest]; [discriminate|]. inversion Hh; subst. eauto.
+Qed.
+
+Definition upper_at' (p : path) (s : state) : Prop := forall n', nget p (root s) = Some n' -> in_upper n' = true.
+Lemma cud_coherent fuel : forall p s r s', Coherent s -> create_upper_dir fuel p s = (r, s') ->
+  Coherent s' /\ same_paths s s' /\ (r = Ok tt -> upper_at' p s').
+Proof.
+  induction fuel as [|f IH]; intros p s r s' HC Hrun; cbn [create_upper_dir] in Hrun.
+  { inversion Hrun; subst. split; [exact HC|]. split; [apply same_paths_refl|discriminate]. }
+  assert (Keep : forall e, (Err e, s) = (r, s') -> Coherent s' /\ same_paths s s' /\ (r = Ok tt -> upper_at' p s')).
+  { intros e H. inversion H; subst. split; [exact HC|]. split; [apply same_paths_refl|discriminate]. }
+  unfold bind at 1 in Hrun. unfold get_node at 1 in Hrun. destruct (nget p (root s)) as [n|] eqn:Hg; [|exact (Keep _ Hrun)].
+  unfold bind at 1 in Hrun. unfold stat_node in Hrun. destruct (node_stat s n) as [st|] eqn:Hst; [|exact (Keep _ Hrun)].
+  destruct (is_dirT st) eqn:Edir; cbn [negb] in Hrun; [|exact (Keep _ Hrun)].
+  destruct (in_upper n) eqn:Eup.
+  { inversion Hrun; subst. split; [exact HC|]. split; [apply same_paths_refl|]. intros _ n' Hn'. rewrite Hg in Hn'. inversion Hn'; subst. exact Eup. }
+  destruct (split_last p) as [[pp nm]|] eqn:Esp; [|exact (Keep _ Hrun)].
+  pose proof (split_last_spec _ _ _ Esp) as Hp. subst p.
+  unfold bind at 1 in Hrun. unfold get_node at 1 in Hrun. destruct (nget pp (root s)) as [pn|] eqn:Hgp; [|exact (Keep _ Hrun)].
+  unfold bind at 1 in Hrun.
+  destruct ((if in_upper pn then ret tt else create_upper_dir f pp) s) as [[[]|e] s1] eqn:E1.
+  2:{ inversion Hrun; subst. destruct (in_upper pn); [inversion E1|].
+      destruct (IH pp s _ _ HC E1) as (A & B & _). split; [exact A|]. split; [exact B|discriminate]. }
+  assert (H1 : Coherent s1 /\ same_paths s s1 /\ upper_at' pp s1).
+  { destruct (in_upper pn) eqn:Epu.
+    - inversion E1; subst s1. split; [exact HC|]. split; [apply same_paths_refl|]. intros n' Hn'. rewrite Hgp in Hn'. inversion Hn'; subst. exact Epu.
+    - destruct (IH pp s _ _ HC E1) as (A & B & C). split; [exact A|]. split; [exact B|]. apply C. reflexivity. }
+  destruct H1 as (HC1 & SP1 & Hup1).
+  assert (Keep1 : forall e, (Err e, s1) = (r, s') -> Coherent s' /\ same_paths s s' /\ (r = Ok tt -> upper_at' (pp ++ [nm]) s')).
+  { intros e H. inversion H; subst. split; [exact HC1|]. split; [exact SP1|discriminate]. }
+  unfold bind at 1 in Hrun. unfold get_node at 1 in Hrun. destruct (nget pp (root s1)) as [pn'|] eqn:Hgp1; [|exact (Keep1 _ Hrun)].
+  pose proof (Hup1 pn' Hgp1) as Hpu.
+  pose proof HC1 as (Hu1 & Hw1 & HCT1). pose proof (HCT1 pp pn' Hgp1) as Npn.
+  unfold bind at 1 in Hrun. unfold upper_real in Hrun. unfold in_upper in Hpu.
+  destruct (n_reals pn') as [|pr prs] eqn:Epr; [discriminate|]. rewrite Hpu in Hrun. cbn [ret] in Hrun.
+  destruct (first_upper_stack s1 pp pn' pr prs Npn Epr Hpu) as (Hl0 & Hpp & rest & Hstk).
+  unfold bind at 1 in Hrun.
+  destruct (ri_mkdir pr nm (mode_of st) s1) as [[ri|e] s2] eqn:Emk.
+  2:{ assert (s2 = s1).
+      { unfold ri_mkdir, ri_guard in Emk. rewrite Hpu in Emk. unfold bind at 1 in Emk. cbn [ret] in Emk. unfold bind at 1 in Emk.
+        unfold mutate in Emk. rewrite Hl0 in Emk. cbn [get_layer] in Emk. destruct (upper s1) as [u1|]; [|inversion Emk; reflexivity].
+        destruct (h_mkdir (r_path pr) nm (mode_of st) u1); inversion Emk; reflexivity. }
+      subst s2. exact (Keep1 _ Hrun). }
+  destruct (ri_mkdir_spec _ _ _ _ _ _ Hpu Hl0 Emk) as (U & U1 & HU & Hmk & -> & HU2 & Hlow2 & Hroot2).
+  rewrite Hpp in *.
+  unfold h_mkdir, h_insert in Hmk. destruct (tget U pp) as [[m x ch| | |]|] eqn:Etg; try discriminate.
+  destruct (afind nm ch) eqn:Enm; [discriminate|]. inversion Hmk; subst U1; clear Hmk.
+  destruct (same_paths_some s s1 _ _ SP1 Hg) as (n1 & Hn1 & _).
+  pose proof (nget_child pp nm (root s1) pn' n1 Hgp1 Hn1) as Hchild.
+  assert (Hld : n_loaded pn' = true).
+  { destruct (n_loaded pn') eqn:El; [reflexivity|]. rewrite (ok_unl _ _ _ _ Npn El) in Hchild. discriminate. }
+  unfold mod_node in Hrun. inversion Hrun; subst r s'; clear Hrun.
+  split; [|split].
+  - apply (dirup_block s1 _ U pp nm (N.land (mode_of st) 1023) pn' n1 rest m x ch); auto.
+    cbn [root]. rewrite Hroot2. reflexivity.
+  - apply (same_paths_trans s s1 _); [exact SP1|]. intros p'. cbn [root]. rewrite Hroot2.
+    apply nget_nupd_loaded; intros m0; reflexivity.
+  - intros _ n' Hn'. cbn [root] in Hn'. rewrite nget_nupd in Hn'. destruct (nget (pp ++ [nm]) (root s2)); cbn [option_map] in Hn'; [|discriminate].
+    inversion Hn'; subst. reflexivity.
+Qed.
+
+(* ------------------------------------------------------------------ attribute / content changes do not change shapes *)
+Definition file_to_file (f : tree -> tree) : Prop := forall j m d x, exists j' m' d' x', f (File j m d x) = File j' m' d' x'.
+Lemma sh_tmap_ino i f : file_to_file f -> forall p t, option_map sh (tget (tmap_ino i f t) p) = option_map sh (tget t p).
+Proof.
+  intros Hf. induction p as [|k p IH]; intros t.
+  - cbn [tget option_map]. destruct t; cbn [tmap_ino sh]; try reflexivity.
+    destruct (i =? ino)%N; [|reflexivity]. destruct (Hf ino mode data xs) as (j' & m' & d' & x' & ->). reflexivity.
+  - destruct t; cbn [tmap_ino tget]; try reflexivity.
+    + rewrite afind_map_snd. destruct (afind k ch); cbn [option_map]; [apply IH|reflexivity].
+    + destruct (i =? ino)%N; [|reflexivity]. destruct (Hf ino mode data xs) as (j' & m' & d' & x' & ->). reflexivity.
+Qed.
+Lemma wf_tmap_ino i f : file_to_file f -> forall t, wf t -> wf (tmap_ino i f t).
+Proof.
+  intros Hf. fix IH 2. intros t Hw. destruct Hw as [m x ch Hn Hall| | |]; cbn [tmap_ino]; try constructor.
+  - rewrite map_map. cbn [fst]. exact Hn.
+  - induction Hall as [|kv l H1 H2 IHl]; cbn [map]; constructor; [cbn [snd]; apply IH; exact H1|exact IHl].
+  - destruct (i =? i0)%N; [|constructor]. destruct (Hf i0 m d x) as (j' & m' & d' & x' & ->). constructor.
+Qed.
+Lemma coherent_shape_eq s s' :
+  (forall i p, shp s' i p = shp s i p) -> root s' = root s -> List.length (lowers s') = List.length (lowers s) ->
+  wf_layers s' -> (exists u, upper s' = Some u) -> Coherent s -> Coherent s'.
+Proof.
+  intros Hs Hr Hl Hw Hu (_ & _ & HC). split; [exact Hu|]. split; [exact Hw|]. rewrite Hr, Hl.
+  assert (E : shp s' = shp s).
+  { apply FunctionalExtensionality.functional_extensionality. intros i. apply FunctionalExtensionality.functional_extensionality. apply Hs. }
+  rewrite E. exact HC.
 Qed.
